@@ -29,10 +29,11 @@ PROPERTIES = {
         'engines': [
             {'name': 'c05_lib', 'quick': 20000, 'thorough': 3000000, 'san': 200000, 'chunk': 2500,
              'required_probes': ['probe.worker_not0_read_first', 'probe.later_frame_read_during_eval', 'probe.fewer_frames_than_threads',
-                                 'probe.eof_seen_by_two', 'probe.three_tasks_blocked', 'probe.slow_evaluation']},
+                                 'probe.eof_seen_by_two', 'probe.three_tasks_blocked', 'probe.slow_evaluation', 'probe.reader_threw', 'probe.evaluation_threw',
+                                 'probe.terminated_like_the_reference']},
             {'name': 'c05_stat', 'quick': 3000, 'thorough': 400000, 'san': 20000, 'chunk': 500,
              'required_probes': ['probe.outputs_compared', 'probe.block_files_written', 'probe.fewer_frames_than_threads', 'probe.three_tasks_blocked', 'probe.eof_seen',
-                                 'probe.reader_lammps_dump', 'probe.reader_gro', 'probe.reader_pdb', 'probe.reader_xyz', 'probe.reader_dlpoly_history', 'probe.threebody_distribution_compared']},
+                                 'probe.reader_lammps_dump', 'probe.reader_gro', 'probe.reader_pdb', 'probe.reader_xyz', 'probe.reader_dlpoly_history', 'probe.threebody_distribution_compared', 'probe.terminated_like_the_reference']},
             {'name': 'c05_prdf', 'quick': 1500, 'thorough': 200000, 'san': 10000, 'chunk': 500,
              'required_probes': ['probe.outputs_compared', 'probe.block_files_written', 'probe.three_tasks_blocked',
                                  'probe.topology_from_gro', 'probe.topology_from_pdb', 'probe.topology_from_xyz']},
